@@ -172,7 +172,19 @@ def _tree_job(args):
                 is_file = p in files
                 suffix = (".py" if files[p]["py"] else ".txt") if is_file else ""
                 paths[p] = os.path.join(str(base), *p[:-1], p[-1] + suffix) if is_file else os.path.join(str(base), *p)
-            for trial in range(4):
+            # the SAME pattern strings once as `exclusions` (glob meaning: the whole path) and once as `regex_exclusions` (a regular
+            # expression anchored at the start only), one scan after the other in this process, in either order: a path of the tree
+            # that is also a valid regular expression, preferably one that is a proper prefix of a neighbour's path
+            both = sorted(s0 for s0 in paths.values() if not any(ch in s0 for ch in "*?[]()+^$|\\{}"))
+            both = [s0 for s0 in both if any(o != s0 and o.startswith(s0) and not o.startswith(s0 + "/") for o in both)] or both
+            p_both = rng.choice(both) if both and rng.random() < 0.5 else None
+            order_both = rng.choice([("glob", "regex"), ("regex", "glob")])
+            for trial in range(6):
+                forced = None
+                if trial >= 4:
+                    if p_both is None:
+                        break
+                    forced = order_both[trial - 4]
                 tgt = rng.choice([p for p in paths if len(p) > len(mp) or rng.random() < 0.1] or list(paths))
                 nm = os.path.basename(paths[tgt])
                 stem = tgt[-1]
@@ -193,6 +205,15 @@ def _tree_job(args):
                     # regex_exclusions given while `exclusions` is left at its default: the library may refuse the combination
                     # (the two options are documented as mutually exclusive) - but if it answers, the regexes must have been applied
                     kw = dict(regex_exclusions=rxs)
+                if forced == "glob":
+                    globs, use_regex, raw_regex, regex_only = (p_both,), False, False, False
+                    rxs = tuple(conv(g) for g in globs)
+                    kw = dict(exclusions=globs)
+                elif forced == "regex":
+                    rxs, use_regex, raw_regex, regex_only = (p_both,), True, True, False
+                    kw = dict(exclusions=(), regex_exclusions=rxs)
+                if forced:
+                    out["stats"]["same_strings_as_glob_and_as_regex"] = out["stats"].get("same_strings_as_glob_and_as_regex", 0) + 1
                 flt = scan.real_scan(base, root, mp, **kw, **extkw)
                 if regex_only and flt[0] == "ERR" and flt[1].startswith("ImproperlyConfigured"):
                     out["stats"]["regex_exclusions_with_default_exclusions_refused"] = out["stats"].get("regex_exclusions_with_default_exclusions_refused", 0) + 1
@@ -276,7 +297,7 @@ def _tree_job(args):
                 out["samples"].append(dict(dirs=[scan.dotted(d) for d in dirs], files=[scan.dotted(f) for f in files]))
         finally:
             scan.cleanup(base)
-    return out
+    return common.tag_job(out, __name__, "_tree_job", list(args))
 
 
 def run_tree_part(ctx: Ctx):
